@@ -35,7 +35,7 @@ def _try(fn):
         return type(e).__name__, None
 
 
-@harness('QuantTradingSystem.__init__', props=['C08'], layer='L4', functions=WIRING_FUNCS)
+@harness('QuantTradingSystem.__init__', props=['C08'], also=['C10', 'C11'], layer='L4', functions=WIRING_FUNCS)
 def qts_wiring(c):
     """long_only -> cash-buffered long-only sizer with exactly the given buffer; otherwise the leveraged long/short sizer with
        exactly the given leverage; a missing parameter -> ValueError; fixed-weight optimiser; pass-through market-order
@@ -55,7 +55,8 @@ def qts_wiring(c):
             pcm, eh = q.portfolio_construction_model, q.execution_handler
             sz = pcm.order_sizer
             c.ob(tag + 'sizer-class-follows-long_only', type(sz) is (DW if long_only else LS))
-            c.ob(tag + 'sizer-gets-exactly-the-given-parameter', EQ(sz.cash_buffer_percentage, buf) if long_only else EQ(sz.gross_leverage, lev))
+            c.ob(tag + 'sizer-gets-exactly-the-given-parameter', EQ(sz.cash_buffer_percentage, buf) if long_only else EQ(sz.gross_leverage, lev),
+                 props=['C08', 'C10' if long_only else 'C11'])
             c.ob(tag + 'sizer-shares-broker-portfolio-and-data-handler', AND(sz.broker is brk, sz.broker_portfolio_id == 'pid', sz.data_handler is dh))
             c.ob(tag + 'optimiser-is-fixed-weight', type(pcm.optimiser) is FixedWeightPortfolioOptimiser)
             c.ob(tag + 'pcm-wired-to-broker-universe-alpha-and-risk-model',
@@ -68,6 +69,13 @@ def qts_wiring(c):
     c.ob('long-only-without-buffer-rejected/type-ValueError', r == 'ValueError')
     r, _ = _try(lambda: QuantTradingSystem(uni, brk, 'pid', dh, alpha, long_only=False, cash_buffer_percentage=buf))
     c.ob('long-short-without-leverage-rejected/type-ValueError', r == 'ValueError')
+    # the sizers' own refusals are not softened on the way: leverage 0 / negative and a buffer outside [0, 1] still raise ValueError
+    for bad in (0.0, 0, -0.0, -1.5):
+        r, _ = _try(lambda: QuantTradingSystem(uni, brk, 'pid', dh, alpha, long_only=False, gross_leverage=bad))
+        c.ob('non-positive-leverage-%r-rejected/type-ValueError' % (bad,), r == 'ValueError', props=['C11', 'C08'])
+    for bad in (-0.01, 1.01):
+        r, _ = _try(lambda: QuantTradingSystem(uni, brk, 'pid', dh, alpha, long_only=True, cash_buffer_percentage=bad))
+        c.ob('buffer-%r-outside-unit-interval-rejected/type-ValueError' % (bad,), r == 'ValueError', props=['C10', 'C08'])
 
 
 canary('long/short system built with the long-only sizer', QuantTradingSystem, '_create_order_sizer', 'if self.long_only:', 'if True:')(qts_wiring)
@@ -134,7 +142,7 @@ class _Uni:
         return list(self.assets)
 
 
-@harness('BacktestTradingSession.__init__', props=['C08', 'C14'], also=['C12', 'C13', 'C18', 'C06', 'C01'], layer='L4', functions=WIRING_FUNCS)
+@harness('BacktestTradingSession.__init__', props=['C08', 'C14'], also=['C12', 'C13', 'C18', 'C06', 'C01', 'C11'], layer='L4', functions=WIRING_FUNCS)
 def session_wiring(c):
     """the session wires: exchange; the given data handler; a broker holding initial_cash in ONE portfolio (master account
        emptied into it) with the given fee model; a clock without pre/post-market events over [start, end]; the schedule class
@@ -223,6 +231,9 @@ def session_wiring(c):
     r, _ = _try(lambda: BacktestTradingSession(start, end, uni, alpha, rebalance='weekly', long_only=True, data_handler=dh, cash_buffer_percentage=buf))
     c.ob('weekly-without-a-weekday-rejected/type-ValueError', r == 'ValueError')
     r, s = _try(lambda: BacktestTradingSession(start, end, uni, alpha, rebalance='daily', long_only=False, data_handler=dh, gross_leverage=2.0))
+    for bad in (0.0, -2.0):
+        r, _ = _try(lambda: BacktestTradingSession(start, end, uni, alpha, rebalance='daily', long_only=False, data_handler=dh, gross_leverage=bad))
+        c.ob('session-with-leverage-%r-rejected/type-ValueError' % (bad,), r == 'ValueError', props=['C11', 'C08'])
     c.ob('long-short-session-uses-the-leveraged-sizer', AND(r == 'ok', type(s.qts.portfolio_construction_model.order_sizer) is LS,
                                                            s.qts.portfolio_construction_model.order_sizer.gross_leverage == 2.0) if r == 'ok' else False)
 
